@@ -36,6 +36,8 @@ def sim_path_local(cb):
 def r1_recorded_is_dequeued(ctx, cb, rule='C03-R1'):
     b = cb.b
     ctx.touched(b)
+    from checkers import no_stray_evaluations
+    no_stray_evaluations(ctx, cb, rule)
     # condition argument
     if cb.sim:
         push, fpcall, path_local = sim_path_local(cb)
